@@ -26,6 +26,8 @@ def worker(items, idx, extra):
                     st.append((p, "BUILD-FAIL", rr.stdout[-300:]))
                     break
                 st.append((p, "CAUGHT" if v else "MISSED", ";".join(x.split("replay=")[-1].rsplit("/", 1)[-1][:90] for x in v[:3])))
+                if v and len(extra.get(prop, [])) > 4:
+                    break
             subprocess.run(["patch", "-p1", "-s", "-R", "-i", path], cwd=scratch, stdout=subprocess.PIPE, stderr=subprocess.STDOUT)
             verdict = "BUILD-FAIL" if any(s[1] == "BUILD-FAIL" for s in st) else ("CAUGHT" if any(s[1] == "CAUGHT" for s in st) else "MISSED")
             out.append((prop, path, verdict, st))
@@ -41,16 +43,28 @@ def main():
     ap.add_argument("--jobs", type=int, default=4)
     ap.add_argument("--only", default=None)
     ap.add_argument("--out", default=os.path.join(VERIF, "out", "ideas_results.json"))
+    ap.add_argument("--all", action="store_true", help="run every claimed check on every idea (cross-property catches)")
+    ap.add_argument("--from-results", default=None, help="only ideas whose verdict in this results file is --verdict")
+    ap.add_argument("--verdict", default="MISSED")
     a = ap.parse_args()
     # sibling properties whose checks legitimately own a clause of the given one
     extra = {"C03": ["C07"], "C07": ["C05", "C03"], "C08": ["C04"], "C17": ["C12"], "C11": ["C12"], "C02": []}
+    if a.all:
+        allp = [c["property_id"] for c in json.load(open(os.path.join(VERIF, "MANIFEST.json")))["checks"]]
+        extra = {p: [q for q in allp if q != p] for p in allp + ["C14", "C20"]}
+    sel = None
+    if a.from_results:
+        sel = set()
+        for f in a.from_results.split(","):
+            sel |= {(r["prop"], os.path.basename(r["patch"])) for r in json.load(open(f)) if r["verdict"] == a.verdict}
     items = []
     for d in sorted(glob.glob(os.path.join(a.dir, "C*"))):
         prop = os.path.basename(d)
         if a.only and prop not in a.only.split(","):
             continue
         for f in sorted(glob.glob(os.path.join(d, "*.diff"))):
-            items.append((prop, f))
+            if sel is None or (prop, os.path.basename(f)) in sel:
+                items.append((prop, f))
     chunks = [items[i::a.jobs] for i in range(a.jobs)]
     res = []
     with ThreadPoolExecutor(a.jobs) as ex:
